@@ -354,6 +354,15 @@ impl<'a> VisitMut for Rules<'a> {
             b.stmts = kept;
         }
         visit_mut::visit_block_mut(self, b);
+        // a hoisted loop / block expression in statement position has become a call: it needs its `;`
+        let n = b.stmts.len();
+        for (k, st) in b.stmts.iter_mut().enumerate() {
+            if k + 1 < n {
+                if let Stmt::Expr(Expr::Call(_), semi @ None) = st {
+                    *semi = Some(Default::default());
+                }
+            }
+        }
     }
     fn visit_expr_mut(&mut self, e: &mut Expr) {
         // R12: a statement-position `match S { P1 if G1 => B1, .., Pk if Gk => Bk, Q1 => C1, .. }` (all guarded arms first, every
